@@ -827,6 +827,41 @@ theorem without_self_count_double_close :
       (auditSchedule ++ [.base (.taskFinish 0)])).base.closes = 2 := by
   decide +kernel
 
+/-- read — Shutdown — (back from the read) — nil? : a datagram the read had taken when Shutdown closed the conn -/
+def lateReadSchedule : List Label2 :=
+  [.base (.serveEnter 0), .serveRead 0 0 exDgram, .base (.downEnter 0), .serveSpawn 0, .base (.downReturnNil 0)]
+
+/-- The code, on that schedule: the datagram is handed to a goroutine although Shutdown has been requested, and
+    Shutdown keeps waiting (its nil return is not enabled) … -/
+theorem late_read_schedule_in_the_code :
+    let s := reach2 exHash exCfg [0] 1 lateReadSchedule
+    s.base.downs[0]? = some ⟨.waiting, false⟩ ∧
+    s.base.log = [.listenerClosed 0, .recv 0 0 0 exDgram] := by
+  decide +kernel
+
+/-- … until the handler has run and returned and the Serve call has seen its closed conn: exactly one handler for
+    the datagram, then `nil`. -/
+theorem late_read_schedule_drains :
+    let s := reach2 exHash exCfg [0] 1
+      (lateReadSchedule ++ [.base (.taskRun 0), .base (.taskFinish 0), .base (.serveReadErr 0), .base (.downReturnNil 0)])
+    s.base.downs[0]? = some ⟨.returned .nil, false⟩ ∧
+    s.base.log = [.listenerClosed 0, .recv 0 0 0 exDgram, .request 0 exPacket 0 0 .server, .handlerStart 0 (0, 7),
+      .handlerEnd 0, .serveReturned 0, .downReturned 0 .nil] := by
+  decide +kernel
+
+/-- NEGATIVE CONTROL 3 (`step2FlagAfterRead`: the read loop tests `shutdownRequested` after every `ReadFrom`, before
+    it looks at the error — seeded change C06-r9-3).  On the SAME schedule the Serve call returns
+    `ErrServerShutdown` holding the datagram, Shutdown returns nil, and the datagram that was received is never
+    handed to a handler: "exactly once for each received valid datagram" fails.  The lab replays this window
+    (a datagram fed after the Close, `D=serve-returned`). -/
+theorem flag_after_read_drops_a_received_datagram :
+    let s := runWith (step2FlagAfterRead exHash exCfg) (initWith2 [0] 1) lateReadSchedule
+    s.base.downs[0]? = some ⟨.returned .nil, false⟩ ∧ s.base.serves = [.returned .errShutdown] ∧
+    s.holds 0 = none ∧ s.base.tasks = [] ∧
+    s.base.log = [.listenerClosed 0, .serveReturned 0, .downReturned 0 .nil] := by
+  decide +kernel
+
+
 /-- NEGATIVE CONTROL 2 (`step2LateAdd`: `activeAdd` is the goroutine's first statement instead of the Serve
     call's last before `go`).  Read, spawn (uncounted), Shutdown, the read fails and the Serve call returns
     — `activeCount` reaches -1 with the goroutine alive —, Shutdown returns nil, THEN the handler starts. -/
